@@ -85,6 +85,16 @@ func ruleCtorReopen(c *Ctx, r *Report, prefix string) {
 			return false
 		}
 		okR, okC := check(re), check(ctor)
+		if !okC && okR {
+			// the constructor delegates to Reopen
+			for _, b := range c.GB(ctor) {
+				for _, ins := range b.Instrs {
+					if _, isCall := callTo(ins, re); isCall {
+						okC = true
+					}
+				}
+			}
+		}
 		r.Check(okR && okC, rule, pr.ctor, c.Pos(ctor.Pos()), "start = dictionary position both at creation and at Reopen",
 			func() string {
 				if !okC {
